@@ -7,6 +7,7 @@ package c15
 import (
 	"context"
 	"fmt"
+	"regexp"
 	"sort"
 	"sync"
 	"testing"
@@ -43,6 +44,7 @@ type Line struct {
 	Td        bool   `json:"td"`
 	R         int    `json:"r"`
 	Op        string `json:"op"`
+	Note      string `json:"note"`
 	Blocked   bool   `json:"blocked"`
 	Res       []Item `json:"res"`
 	N         int    `json:"n"`
@@ -53,13 +55,34 @@ const ns = "n1"
 
 func rid(id int) string { return fmt.Sprintf("r%d", id) }
 
+// hooked is a cached resource whose Metadata() runs a one-shot hook: the way to make something happen at the exact
+// moment a scan of the cache contents looks at a resource.
+type hooked struct {
+	resource.Resource
+	hook *func()
+}
+
+func (h *hooked) Metadata() *resource.Metadata {
+	if f := *h.hook; f != nil {
+		*h.hook = nil
+
+		f()
+	}
+
+	return h.Resource.Metadata()
+}
+
+func (h *hooked) DeepCopy() resource.Resource { return h.Resource.DeepCopy() } //nolint:ireturn
+
+var scanHook func()
+
 func mk(id, ver int, td bool) resource.Resource {
 	phase := "running"
 	if td {
 		phase = "tearingDown"
 	}
 
-	return vh.NewRes(vh.Key{NS: ns, Typ: vh.IntType, ID: rid(id)}, vh.Obj{Ver: ver, Spec: ver, Phase: phase})
+	return &hooked{Resource: vh.NewRes(vh.Key{NS: ns, Typ: vh.IntType, ID: rid(id)}, vh.Obj{Ver: ver, Spec: ver, Phase: phase}), hook: &scanHook}
 }
 
 func item(r resource.Resource) Item {
@@ -195,6 +218,55 @@ func runBehaviour(t *testing.T, tr *vh.Trace, tid string, beh []Cmd) {
 				}
 
 				emit(Line{Ev: "issue", R: r, Op: c.Op, ID: c.ID, Blocked: blocked})
+			case "racelist":
+				// a filtered List; the moment its scan looks at the first cached resource, the cache applies one mutation
+				fired := false
+				apply := func() {
+					if c.Op == "put" {
+						cache.CachePut(mk(c.ID, c.Ver, c.Td))
+					} else {
+						cache.CacheRemove(mk(c.ID, 1, false))
+					}
+				}
+
+				scanHook = func() {
+					fired = true
+
+					apply()
+				}
+
+				var (
+					res     = []Item{}
+					outcome = "ok"
+				)
+
+				func() {
+					defer func() {
+						if p := recover(); p != nil {
+							outcome = fmt.Sprint("panic: ", p)
+						}
+					}()
+
+					l, err := cache.List(root, resource.NewMetadata(ns, vh.IntType, "", resource.VersionUndefined),
+						state.WithIDQuery(resource.IDRegexpMatch(regexp.MustCompile("^r[0-9]+$"))))
+					if err != nil {
+						outcome = "error: " + err.Error()
+
+						return
+					}
+
+					for _, it := range l.Items {
+						res = append(res, item(it))
+					}
+				}()
+
+				scanHook = nil
+
+				if !fired {
+					apply()
+				}
+
+				emit(Line{Ev: "racelist", Op: c.Op, ID: c.ID, Ver: c.Ver, Td: c.Td, Res: res, Note: outcome})
 			case "cancelctx":
 				for _, cr := range ctxs {
 					if cr.n == c.ID {
